@@ -77,7 +77,7 @@ def parse_kind_table(src):
 
 def gen_syntax_kind(variants):
     lines = ['#[derive(Clone, Copy, PartialEq, Eq, Structural)]', '#[repr(u16)]',
-             '#[allow(non_camel_case_types)]', 'enum SyntaxKind {']
+             '#[allow(non_camel_case_types)]', 'pub enum SyntaxKind {']
     for v in variants:
         lines.append('    %s,' % v)
     lines.append('}')
@@ -148,6 +148,92 @@ def reduce_derive(text):
     return re.sub(r'#\[derive\(([^)]*)\)\]', rep, text)
 
 
+
+# --------------------------------------------------------------------------
+# rewrites R11, R12 (Parser::build_tree)
+
+LOCAL_MACRO_RX = re.compile(r'macro_rules!\s*(\w+)\s*\{')
+
+
+def expand_local_macros(body):
+    """R12: a function-local `macro_rules! NAME { ($x: ident) => { BODY }; }` with exactly one rule and one
+    `ident` parameter is expanded textually at every `NAME!(ARG)` and its definition is removed - what rustc does.
+    (Verus' syntax macro does not look inside macro_rules bodies, so closure contracts could not be attached there.)"""
+    notes = []
+    while True:
+        mask = code_mask(body)
+        mm = None
+        for cand in LOCAL_MACRO_RX.finditer(body):
+            if mask[cand.start()]:
+                mm = cand
+                break
+        if not mm:
+            return body, notes
+        name = mm.group(1)
+        o = mm.end() - 1
+        c = match_brace(body, mask, o)
+        inner = body[o + 1:c]
+        rule = re.match(r'\s*\(\s*\$(\w+)\s*:\s*ident\s*\)\s*=>\s*\{(.*)\}\s*;?\s*$', inner, re.S)
+        if not rule:
+            raise AnchorLost('local macro %s! is not of the one-rule / one-ident-parameter form' % name)
+        param, mbody = rule.group(1), rule.group(2).strip()
+        end = c + 1
+        while end < len(body) and body[end] in ' \t':
+            end += 1
+        if end < len(body) and body[end] == '\n':
+            end += 1
+        ls = body.rfind('\n', 0, mm.start()) + 1
+        body = body[:ls] + body[end:]
+        n = 0
+        while True:
+            mask = code_mask(body)
+            use = None
+            for cand in re.finditer(r'\b%s!\s*\(' % re.escape(name), body):
+                if mask[cand.start()]:
+                    use = cand
+                    break
+            if not use:
+                break
+            uo = use.end() - 1
+            uc = match_brace(body, mask, uo, '(', ')')
+            arg = body[uo + 1:uc].strip()
+            if not re.match(r'^\w+$', arg):
+                raise AnchorLost('%s!(..) used with a non-identifier argument' % name)
+            body = body[:use.start()] + re.sub(r'\$%s\b' % re.escape(param), arg, mbody) + body[uc + 1:]
+            n += 1
+        notes.append('local macro %s! expanded at %d sites' % (name, n))
+
+
+TWC_RX = re.compile(r'\(\s*(\w+)\s*\.\.\s*(\w+)\s*\)\s*\.\s*take_while\s*\(')
+
+
+def rewrite_take_while_count(body):
+    """R11: `(A..B).take_while(|&X| E).count()` -> `verif_range_take_while_count(A, B, |X: usize| -> (b: bool) { E })`.
+    The helper is an external_body function whose body is the original iterator chain and whose assumed contract is
+    the meaning of take_while/count on a range (contracts/parser_stubs.rs); `|&X|` over `&usize` items and `|X: usize|`
+    over `usize` items denote the same predicate."""
+    n = 0
+    while True:
+        mask = code_mask(body)
+        mm = None
+        for cand in TWC_RX.finditer(body):
+            if mask[cand.start()]:
+                mm = cand
+                break
+        if not mm:
+            return body, n
+        po = mm.end() - 1
+        pc = match_brace(body, mask, po, '(', ')')
+        inner = body[po + 1:pc]
+        cm = re.match(r'\s*\|\s*&\s*(\w+)\s*\|\s*(.*)$', inner, re.S)
+        tail = re.match(r'\s*\.\s*count\s*\(\s*\)', body[pc + 1:])
+        if not cm or not tail:
+            raise AnchorLost('take_while chain not of the form (A..B).take_while(|&x| E).count()')
+        x, expr = cm.group(1), ' '.join(cm.group(2).split())
+        rep = 'verif_range_take_while_count(%s, %s, |%s: usize| -> (b: bool) { %s })' % (mm.group(1), mm.group(2), x, expr)
+        body = body[:mm.start()] + rep + body[pc + 1 + tail.end():]
+        n += 1
+
 # --------------------------------------------------------------------------
 
 def split_fn(src, start, open_idx, close_idx):
@@ -193,10 +279,25 @@ def extract(repo):
 
     items = []
     dropped = []
+    rewrites_bt = []
+    bt_unextractable = None
 
     # ---- kind.rs: regenerated enum (R3)
     mm = kind.find_header(r'^def!\s*\{', 0)
     items.append(Item('type', 'SyntaxKind', gen_syntax_kind(variants), rel('kind.rs'), kind.line_of(mm.start())))
+
+    # ---- kind.rs: anchor constants (what `$(const $anchor: Self = Self::$variant;)*` in def! expands to), the
+    # kind predicates, and `impl From<SyntaxKind> for rowan::SyntaxKind` (used by the tree builder)
+    if anchors:
+        items.append(Item('type', 'SyntaxKind::<anchors>', 'impl SyntaxKind {\n%s\n}' % '\n'.join(
+            '    const %s: Self = Self::%s;' % (a, v) for a, v in anchors.items()), rel('kind.rs'), kind.line_of(mm.start())))
+    s, o, c = kind.cut_braced(r'^impl SyntaxKind\b', 0)
+    for nm, fs, fo, fc in fns_in(kind, 1, o + 1, c):
+        h, b = split_fn(kind, fs, fo, fc)
+        items.append(Item('fn', 'SyntaxKind::' + nm, None, rel('kind.rs'), kind.line_of(fs),
+                          header=strip_lead(rw(h)), body=rw(b), owner='SyntaxKind'))
+    s, o, c = kind.cut_braced(r'^impl From<SyntaxKind> for rowan::SyntaxKind\b', 0)
+    items.append(Item('type', 'From<SyntaxKind> for rowan::SyntaxKind', kind.text[s:c + 1], rel('kind.rs'), kind.line_of(s)))
 
     # ---- lib.rs: Error, ErrorKind
     for nm, pat in (('Error', r'^pub struct Error\b'), ('ErrorKind', r'^pub enum ErrorKind\b')):
@@ -253,14 +354,21 @@ def extract(repo):
         s0 = parser.attrs_start(s)
         items.append(Item('type', nm, reduce_derive(rw(parser.text[s0:c + 1])), rel('parser.rs'), parser.line_of(s)))
 
+    s, o, c = parser.cut_braced(r'^pub struct Parse\b', 0)
+    items.append(Item('type', 'Parse', rw(parser.text[s:c + 1]), rel('parser.rs'), parser.line_of(s)))
+
     # ---- parser.rs: impl Parser
     s, o, c = parser.cut_braced(r"^impl<'i> Parser<'i>", 0)
     impl_header = parser.text[s:o].strip()
     for nm, fs, fo, fc in fns_in(parser, 1, o + 1, c):
-        if nm == 'build_tree':
-            dropped.append('Parser::build_tree (R6: covered by the Kani unit)')
-            continue
         h, b = split_fn(parser, fs, fo, fc)
+        if nm == 'build_tree':
+            try:
+                b, notes = expand_local_macros(b)
+                b, ntw = rewrite_take_while_count(b)
+                rewrites_bt = notes + ['%d take_while/count chains rewritten to verif_range_take_while_count (R11)' % ntw]
+            except AnchorLost as e:
+                bt_unextractable = str(e)
         items.append(Item('fn', 'Parser::' + nm, None, rel('parser.rs'), parser.line_of(fs),
                           header=strip_lead(rw(h)), body=rw(b), owner='Parser'))
 
@@ -279,7 +387,7 @@ def extract(repo):
         h, b = split_fn(parser, fs, fo, fc)
         items.append(Item('fn', nm, None, rel('parser.rs'), parser.line_of(fs),
                           header=strip_lead(rw(h)), body=rw(b)))
-    dropped.append('struct Parse / impl Parse (R6: rowan green tree)')
+    dropped.append('impl Parse (R6: rowan red tree accessors)')
 
     # ---- R4b: function-local `const X: TokenSet = E;` hoisted to module level (Verus has no
     # exec-mode constants inside function bodies); a name clash stops the run.
@@ -349,7 +457,8 @@ def extract(repo):
 
     return {'fuel_reset': fuel_reset, 'parser_literal': parser_literal, 'parser_literal_line': parser.line_of(o_ + lm.start(1)),
             'items': items, 'variants': variants, 'tokens': tokens, 'anchors': anchors,
-            'impl_parser_header': impl_header, 'dropped': dropped}
+            'impl_parser_header': impl_header, 'dropped': dropped, 'rewrites_build_tree': rewrites_bt,
+            'build_tree_unextractable': bt_unextractable}
 
 
 if __name__ == '__main__':
